@@ -10,7 +10,7 @@ CONSTANT MaxOps = 2
 CONSTANT Cpbs = {1, 12000}
 CONSTANT MaxCost = 100000000
 CONSTANT Menu = {"s1", "s2", "s3", "s4", "s5", "s6"}
-CONSTANT EmitOneIn = 1
+CONSTANT EmitOneIn = 2
 CONSTANT Batches <- BatchesFull
 INVARIANT Accumulation
 INVARIANT UpperBound
